@@ -180,6 +180,7 @@ func TestVerif_C03(t *testing.T) {
 		}
 		// enumerate sites
 		var sites []vSite
+		forced := map[int]string{} // site index -> the one kind of damage to apply there
 		var handles []backend.Handle
 		for h := range base {
 			handles = append(handles, h)
@@ -200,6 +201,14 @@ func TestVerif_C03(t *testing.T) {
 				end := int(bl[len(bl)-1].Offset + bl[len(bl)-1].Length)
 				for k := 0; k < perClass; k++ {
 					sites = append(sites, vSite{h, cls, r.Intn(end)})
+				}
+				// the pack cut off inside each of its blobs (a partial upload / download): the blobs before the
+				// cut stay readable one by one, the others are lost together
+				if cls == "pack-data-blob" && len(bl) <= 8 {
+					for _, b := range bl {
+						forced[len(sites)] = "truncate"
+						sites = append(sites, vSite{h, cls, int(b.Offset) + int(b.Length)/2})
+					}
 				}
 				for k := 0; k < perClass/2+1 && end < len(d)-4; k++ {
 					sites = append(sites, vSite{h, "pack-header", end + r.Intn(len(d)-4-end)})
@@ -224,13 +233,16 @@ func TestVerif_C03(t *testing.T) {
 			}
 		}
 		nrec := 0
-		for _, s := range sites {
+		for sidx, s := range sites {
 			kinds := []string{"flip"}
 			if r.Intn(6) == 0 {
 				kinds = append(kinds, []string{"truncate", "extend", "delete"}[r.Intn(3)])
 			}
 			if s.class == "key" {
 				kinds = []string{"truncate", "delete"}
+			}
+			if k, ok := forced[sidx]; ok {
+				kinds = []string{k}
 			}
 			for _, kind := range kinds {
 				files := map[backend.Handle][]byte{}
@@ -262,8 +274,18 @@ func TestVerif_C03(t *testing.T) {
 				for _, id := range sortedKeys(reads) {
 					outcomes = append(outcomes, reads[id])
 				}
-				if nrec%9 == 0 || (s.class == "pack-data-blob" && nrec%2 == 0) {
+				if nrec%9 == 0 || s.class == "pack-data-blob" {
+					// restore / dump a snapshot the damage affects, if there is one
 					ids := sortedKeys(reads)
+					var hit []string
+					for _, x := range ids {
+						if reads[x] == "fail" {
+							hit = append(hit, x)
+						}
+					}
+					if len(hit) > 0 {
+						ids = hit
+					}
 					id := ids[r.Intn(len(ids))]
 					outcomes = append(outcomes, vRestoreOutcome(t, files, id, l.want[id], false))
 					outcomes = append(outcomes, vRestoreOutcome(t, files, id, l.want[id], true))
